@@ -840,6 +840,37 @@ fn g_cfgpair(out: &mut Out, rng: &mut Rng, count: usize, thorough: bool) -> io::
     Ok(())
 }
 
+/// capacity sweeps (C17 capacity law): the same buffer under capacities 0..=k+2
+fn g_caps(out: &mut Out, rng: &mut Rng, count: usize) -> io::Result<()> {
+    for (kind, list) in [("req", REQ_TEMPLATES), ("resp", RESP_TEMPLATES)] {
+        for (t, cfgs) in list {
+            let k = t.iter().filter(|&&b| b == b'\n').count();
+            for &cfg in cfgs.iter() {
+                writeln!(out, "capsweep {} {} {} {}", kind, cfg, k + 2, hex(t))?;
+                for cut in 0..t.len() {
+                    writeln!(out, "capsweep {} {} {} {}", kind, cfg, k + 1, hex(&t[..cut]))?;
+                }
+                for p in 0..t.len() {
+                    for &b in &[b' ', b'\t', b'\r', b'\n', 0u8, b':', 0x7f, b'a'] {
+                        let mut s = t.to_vec();
+                        s[p] = b;
+                        writeln!(out, "capsweep {} {} {} {}", kind, cfg, k + 1, hex(&s))?;
+                    }
+                }
+            }
+        }
+    }
+    for _ in 0..count {
+        let isreq = rng.chance(1, 2);
+        let (t, cfgs) = if isreq { rng.pick(REQ_TEMPLATES) } else { rng.pick(RESP_TEMPLATES) };
+        let mut s = t.to_vec();
+        mutate(rng, &mut s);
+        let k = s.iter().filter(|&&b| b == b'\n').count();
+        writeln!(out, "capsweep {} {} {} {}", if isreq { "req" } else { "resp" }, rng.pick(cfgs), k + 1, hex(&s))?;
+    }
+    Ok(())
+}
+
 fn g_hrel(out: &mut Out, rng: &mut Rng, count: usize) -> io::Result<()> {
     let tc = tchars();
     for t in HDRS_TEMPLATES {
@@ -883,6 +914,7 @@ pub fn cmd_gen(args: &[String]) -> io::Result<()> {
         "hist" => g_hist(&mut out, &mut rng, if thorough { 400_000 } else { 30_000 })?,
         "place" => g_place(&mut out, &mut rng, if thorough { 300_000 } else { 20_000 })?,
         "classes" => writeln!(out, "classes")?,
+        "caps" => g_caps(&mut out, &mut rng, if thorough { 300_000 } else { 20_000 })?,
         "split" => g_split(&mut out, &mut rng, if thorough { 300_000 } else { 12_000 })?,
         "cfgpair" => g_cfgpair(&mut out, &mut rng, if thorough { 1_000_000 } else { 60_000 }, thorough)?,
         "hrel" => g_hrel(&mut out, &mut rng, if thorough { 1_000_000 } else { 60_000 })?,
@@ -944,8 +976,10 @@ pub fn cmd_cost(args: &[String]) {
     let small: usize = args.get(0).and_then(|s| s.parse().ok()).unwrap_or(32 * 1024);
     let factor: usize = args.get(1).and_then(|s| s.parse().ok()).unwrap_or(8);
     let reps: usize = args.get(2).and_then(|s| s.parse().ok()).unwrap_or(7);
+    let only: Option<&String> = args.get(3);
     for size in [small, small * factor] {
         for (name, kind, cfg, buf) in cost_families(size) {
+            if let Some(o) = only { if o != name { continue; } }
             let cap = buf.iter().filter(|&&b| b == b'\n').count() + 2;
             let config = crate::mk_config(cfg);
             let mut headers = vec![httparse::EMPTY_HEADER; if kind == "chunk" { 0 } else { cap }];
@@ -969,6 +1003,9 @@ pub fn cmd_cost(args: &[String]) {
                 let dt = t0.elapsed().as_nanos();
                 if dt < best { best = dt; }
                 counters = crate::counters_str();
+                // a run that already takes long is not repeated (super-linear code would make the whole
+                // measurement take minutes)
+                if dt > 200_000_000 { break; }
             }
             println!("cost {} {} cfg={} size={} ns={} {} status={}", name, kind, cfg, buf.len(), best, counters, status.replace(' ', ""));
         }
